@@ -293,6 +293,21 @@ class Facts:
             raise MissingAnchor("no ADT named %s" % npath)
         return {v["name"]: int(v["discr"]) for v in a["variants"] if "discr" in v}
 
+    def variant_name(self, adt_npath, value):
+        """Name of the enum variant with this discriminant value (local or well-known std enums)."""
+        std = {"std::option::Option": {0: "None", 1: "Some"}, "std::result::Result": {0: "Ok", 1: "Err"},
+               "std::task::Poll": {0: "Ready", 1: "Pending"}, "std::ops::ControlFlow": {0: "Continue", 1: "Break"},
+               "std::cmp::Ordering": {-1: "Less", 255: "Less", 0: "Equal", 1: "Greater"}}
+        if adt_npath in std:
+            return std[adt_npath].get(value)
+        a = self.adts.get(adt_npath)
+        if a is None:
+            return None
+        for v in a["variants"]:
+            if "discr" in v and int(v["discr"]) == value:
+                return v["name"]
+        return None
+
     def const_int(self, npath):
         c = self.consts.get(npath)
         if c is None:
